@@ -97,7 +97,8 @@ def harnesses(tier, seed):
         for ty, cv in (("M", (1, 1)), ("MF", (1, 0)), ("FMF", (0, 1)), ("FLF", (2, 1))):
             for owners in ([1, 0], [0, 0]):
                 hs.append(h("collect_vec", ty, 2, 2, 1, owners, cv))
-            hs.append(h("collect_x", ty, 2, 2, 1, [1, 0], cv))
+            if ty != "FLF":  # flat_map col_x kernel: ~5 min / 12+ GB per query (see C07), thorough tier only
+                hs.append(h("collect_x", ty, 2, 2, 1, [1, 0], cv))
             hs.append(h("collect_into_vec", ty, 2, 2, 1, [0, 1], cv))
         hs.append(h("collect_vec", "MF", 3, 2, 2, [1, 1, 0], (1, 0, 1)))
         hs.append(h("collect_x", "MF", 2, 2, 2, [1, 1], (1, 1)))   # fewer chunks than workers
@@ -112,7 +113,7 @@ def harnesses(tier, seed):
         for term, ty, cv in (("find", "E", (1, 1, 1)), ("find", "M", (1, 1, 1)), ("count", "MF", (1, 0, 1)), ("reduce", "M", (1, 1, 1)),
                              ("first", "FM", (0, 1, 1)), ("for_each", "M", (1, 1, 1))):
             hs.append(h(term, ty, 3, 2, 1, "sym", cv))
-        hs.append(h("find", "M", 3, 2, 2, "sym", (1, 1, 1)))
+        hs.append(h("find", "F", 3, 2, 2, "sym", (1, 1, 1)))
     else:
         light, heavy = [], []
         for ty in ("M", "F", "MF", "FM", "FMF", "FL", "FLF"):
